@@ -464,3 +464,52 @@ Fixpoint init_actors (p : Z) (progs : list (list op)) : list actor :=
   match progs with [] => [] | pr :: r => init_actor p pr :: init_actors (p + 1) r end.
 Definition init (pr : Z) (progs : list (list op)) : state :=
   mkS 0 pr (Z.of_nat (length progs) + 1) (init_actors 1 progs) [] [] 0 false false false.
+
+(* ---------------------------------------------------------------------------------------------- integer-list protocol *)
+Definition decode_op (l : list Z) : op * list Z :=
+  match l with
+  | 1 :: d :: r => (OSleep d, r)
+  | 3 :: h :: d :: r => (OExecAsync h d, r)
+  | 4 :: h :: t :: r => (OWaitFor h t, r)
+  | 5 :: t :: m :: r => let '(hs, r') := take_n (Z.to_nat m) r in (OWaitAny t hs, r')
+  | 6 :: a :: t :: r => (OJoin a t, r)
+  | 7 :: a :: r => (OKill a, r)
+  | 8 :: r => (OKillAll, r)
+  | 9 :: t :: r => (OSetKillTime t, r)
+  | 10 :: r => (ODaemonize, r)
+  | 11 :: k :: r => (OOnExit k, r)
+  | 12 :: a :: r => (OSuspend a, r)
+  | 13 :: a :: r => (OResume a, r)
+  | 14 :: r => (OExit, r)
+  | 15 :: r => (OYield, r)
+  | _ :: r => (OBad, r)
+  | [] => (OBad, [])
+  end.
+Fixpoint decode_ops (n : nat) (l : list Z) : list op * list Z :=
+  match n with
+  | O => ([], l)
+  | S n' => let '(o, r) := decode_op l in let '(os, r') := decode_ops n' r in (o :: os, r')
+  end.
+Fixpoint decode_progs (n : nat) (l : list Z) : list (list op) :=
+  match n with
+  | O => []
+  | S n' => match l with
+            | nops :: r => let '(os, r') := decode_ops (Z.to_nat nops) r in os :: decode_progs n' r'
+            | [] => [] :: decode_progs n' []
+            end
+  end.
+Definition b2z (b : bool) : Z := if b then 1 else 0.
+Definition encode_entry (e : entry) : list Z :=
+  match e with
+  | ERet p i _ t0 t1 r d => [1; p; i; t0; t1; r; b2z d]
+  | EExit p k t f => [2; p; k; t; b2z f]
+  | EAct h st fi => [3; h; st; fi]
+  | ETerm p t => [4; p; t]
+  end.
+Definition run_eng (l : list Z) : list Z :=
+  match l with
+  | _ :: pr :: n :: r =>
+    let '(s, fin) := run 4000 (init pr (decode_progs (Z.to_nat n) r)) in
+    [b2z fin; b2z (amb s); b2z (race s); b2z (stuck s); clock s] ++ flat_map encode_entry (rev (log s))
+  | _ => []
+  end.
